@@ -377,7 +377,26 @@ func (h *caHolder) GetCAKeyCertBundle() *util.KeyCertBundle { return h.cur.GetCA
 
 type podSpec struct {
 	name, ns, uid, sa, node string
-	failed                  bool // status.phase == Failed
+	phase                   string // status.phase: "" Running, "P" Pending, "S" Succeeded, "F" Failed
+}
+
+func (p podSpec) failed() bool { return p.phase == "F" }
+
+func (p podSpec) object() *v1.Pod {
+	po := &v1.Pod{
+		ObjectMeta: metav1.ObjectMeta{Name: p.name, Namespace: p.ns, UID: types.UID(p.uid)},
+		Spec:       v1.PodSpec{ServiceAccountName: p.sa, NodeName: p.node},
+		Status:     v1.PodStatus{Phase: v1.PodRunning},
+	}
+	switch p.phase {
+	case "F":
+		po.Status.Phase = v1.PodFailed
+	case "S":
+		po.Status.Phase = v1.PodSucceeded
+	case "P":
+		po.Status.Phase = v1.PodPending
+	}
+	return po
 }
 
 func parsePods(tok string) []podSpec {
@@ -387,7 +406,7 @@ func parsePods(tok string) []podSpec {
 		for len(f) < 6 {
 			f = append(f, "")
 		}
-		out = append(out, podSpec{f[0], f[1], f[2], f[3], f[4], f[5] == "F"})
+		out = append(out, podSpec{f[0], f[1], f[2], f[3], f[4], f[5]})
 	}
 	return out
 }
@@ -395,11 +414,7 @@ func parsePods(tok string) []podSpec {
 func encPods(ps []podSpec) string {
 	var l []string
 	for _, p := range ps {
-		ph := ""
-		if p.failed {
-			ph = "F"
-		}
-		l = append(l, encFields(p.name, p.ns, p.uid, p.sa, p.node, ph))
+		l = append(l, encFields(p.name, p.ns, p.uid, p.sa, p.node, p.phase))
 	}
 	return wire.EncList(l)
 }
@@ -408,7 +423,19 @@ type world struct {
 	server  *caserver.Server
 	trusted []string
 	ids     []string
-	pods    map[string][]podSpec
+	pods    map[string][]podSpec // per cluster: what the ACTIVE node authorizer's informer was given
+	// the following are used only by private worlds (`nap`), which receive events
+	ctl     *multicluster.Fake
+	clients map[string]kube.Client
+	pending map[string]*pendingUpdate
+	stop    chan struct{}
+}
+
+// pendingUpdate is a cluster update whose new component has not been started yet.
+type pendingUpdate struct {
+	client kube.Client
+	pods   []podSpec
+	swaps  []multicluster.ComponentConstraint
 }
 
 type worlds struct {
@@ -432,11 +459,33 @@ func parseNA(f []string) (trusted []string, ids []string, pods map[string][]podS
 	return trusted, ids, pods
 }
 
-// get builds (once per distinct `na` line) a real Server through the public constructor New(), with
-// CA_TRUSTED_NODE_ACCOUNTS set as given and one fake kube client per cluster.
+func newPodClient(pods []podSpec) kube.Client {
+	var objs []runtime.Object
+	for _, p := range pods {
+		objs = append(objs, p.object())
+	}
+	client := kube.NewFakeClient(objs...)
+	honourPodFieldSelector(client, objs)
+	return client
+}
+
+func waitFor(what string, cond func() bool) error {
+	deadline := time.Now().Add(20 * time.Second)
+	for !cond() {
+		if time.Now().After(deadline) {
+			return errors.New("timeout waiting for " + what)
+		}
+		time.Sleep(200 * time.Microsecond)
+	}
+	return nil
+}
+
+// get builds (once per distinct `na` line; afresh for a private `nap` line) a real Server through the
+// public constructor New(), with CA_TRUSTED_NODE_ACCOUNTS set as given and one fake kube client per cluster.
 func (w *worlds) get(f []string) (*world, error) {
+	private := f[0] == "nap"
 	key := strings.Join(f, " ")
-	if x, ok := w.cache[key]; ok {
+	if x, ok := w.cache[key]; ok && !private {
 		return x, nil
 	}
 	trusted, ids, pods := parseNA(f)
@@ -451,35 +500,147 @@ func (w *worlds) get(f []string) (*world, error) {
 	if err != nil {
 		return nil, err
 	}
-	for _, id := range ids {
-		var objs []runtime.Object
-		for _, p := range pods[id] {
-			po := &v1.Pod{
-				ObjectMeta: metav1.ObjectMeta{Name: p.name, Namespace: p.ns, UID: types.UID(p.uid)},
-				Spec:       v1.PodSpec{ServiceAccountName: p.sa, NodeName: p.node},
-				Status:     v1.PodStatus{Phase: v1.PodRunning},
-			}
-			if p.failed {
-				po.Status.Phase = v1.PodFailed
-			}
-			objs = append(objs, po)
-		}
-		client := kube.NewFakeClient(objs...)
-		honourPodFieldSelector(client, objs)
-		ctl.Add(cluster.ID(id), client, w.stop)
-		client.RunAndWait(w.stop)
+	x := &world{server: srv, trusted: trusted, ids: ids, pods: pods, ctl: ctl, clients: map[string]kube.Client{}, pending: map[string]*pendingUpdate{}, stop: w.stop}
+	if private {
+		x.stop = make(chan struct{})
 	}
-	deadline := time.Now().Add(20 * time.Second)
-	for !srv.VerifNodeAuthorizerSynced() {
-		if time.Now().After(deadline) {
-			return nil, errors.New("node authorizer did not sync")
-		}
-		time.Sleep(time.Millisecond)
+	for _, id := range ids {
+		client := newPodClient(pods[id])
+		ctl.Add(cluster.ID(id), client, x.stop)
+		client.RunAndWait(x.stop)
+		x.clients[id] = client
+	}
+	if err := waitFor("node authorizer sync", srv.VerifNodeAuthorizerSynced); err != nil {
+		return nil, err
 	}
 	quiet.Silence()
-	x := &world{server: srv, trusted: trusted, ids: ids, pods: pods}
-	w.cache[key] = x
+	if !private {
+		w.cache[key] = x
+	}
 	return x, nil
+}
+
+func (x *world) close() {
+	if x != nil && x.stop != nil {
+		close(x.stop)
+		x.stop = nil
+	}
+}
+
+func (x *world) removeID(id string) {
+	var ids []string
+	for _, i := range x.ids {
+		if i != id {
+			ids = append(ids, i)
+		}
+	}
+	x.ids = ids
+	delete(x.pods, id)
+}
+
+// event applies one pod / cluster event to a private world and waits until the real node
+// authorizer has processed it.
+func (x *world) event(f []string) error {
+	if x.ctl == nil || x.server == nil {
+		return errors.New("no world")
+	}
+	switch {
+	case len(f) == 4 && f[0] == "pod" && f[1] == "add":
+		id := wire.Dec(f[2])
+		ps := parsePods(wire.EncList([]string{wire.Dec(f[3])}))
+		if len(ps) != 1 || x.clients[id] == nil {
+			return errors.New("bad pod add")
+		}
+		p := ps[0]
+		if _, err := x.clients[id].Kube().CoreV1().Pods(p.ns).Create(context.Background(), p.object(), metav1.CreateOptions{}); err != nil {
+			return err
+		}
+		x.pods[id] = append(x.pods[id], p)
+		if x.server.VerifNodeAuthorizerConfigured() {
+			return waitFor("pod add", func() bool { uid, ok := x.server.VerifPodUID(id, p.ns, p.name); return ok && uid == p.uid })
+		}
+		return nil
+	case len(f) == 5 && f[0] == "pod" && f[1] == "del":
+		id, ns, name := wire.Dec(f[2]), wire.Dec(f[3]), wire.Dec(f[4])
+		if x.clients[id] == nil {
+			return errors.New("bad pod del")
+		}
+		if err := x.clients[id].Kube().CoreV1().Pods(ns).Delete(context.Background(), name, metav1.DeleteOptions{}); err != nil {
+			return err
+		}
+		var keep []podSpec
+		for _, p := range x.pods[id] {
+			if !(p.ns == ns && p.name == name) {
+				keep = append(keep, p)
+			}
+		}
+		x.pods[id] = keep
+		if x.server.VerifNodeAuthorizerConfigured() {
+			return waitFor("pod del", func() bool { _, ok := x.server.VerifPodUID(id, ns, name); return !ok })
+		}
+		return nil
+	case len(f) == 5 && f[0] == "cl" && f[1] == "upd":
+		id := wire.Dec(f[2])
+		pods := parsePods(f[3])
+		client := newPodClient(pods)
+		swaps := x.ctl.VerifUpdate(cluster.ID(id), client, x.stop)
+		x.clients[id] = client
+		if f[4] == "1" {
+			delete(x.pending, id)
+			client.RunAndWait(x.stop)
+			if _, had := x.pods[id]; !had {
+				x.ids = append(x.ids, id)
+			}
+			x.pods[id] = pods
+			return waitFor("cluster update", func() bool { return allSynced(swaps) })
+		}
+		if _, had := x.pods[id]; !had {
+			// no predecessor: the new, unsynced component answers with an empty informer
+			x.ids = append(x.ids, id)
+			x.pods[id] = nil
+		}
+		x.pending[id] = &pendingUpdate{client: client, pods: pods, swaps: swaps}
+		return nil
+	case len(f) == 3 && f[0] == "cl" && f[1] == "sync":
+		id := wire.Dec(f[2])
+		pu := x.pending[id]
+		if pu == nil {
+			return nil
+		}
+		delete(x.pending, id)
+		pu.client.RunAndWait(x.stop)
+		x.pods[id] = pu.pods
+		return waitFor("cluster sync", func() bool { return allSynced(pu.swaps) })
+	case len(f) == 3 && f[0] == "cl" && f[1] == "del":
+		id := wire.Dec(f[2])
+		x.ctl.Delete(cluster.ID(id))
+		delete(x.pending, id)
+		delete(x.clients, id)
+		x.removeID(id)
+		return nil
+	case len(f) == 4 && f[0] == "cl" && f[1] == "add":
+		id := wire.Dec(f[2])
+		pods := parsePods(f[3])
+		client := newPodClient(pods)
+		x.ctl.Add(cluster.ID(id), client, x.stop)
+		client.RunAndWait(x.stop)
+		x.clients[id] = client
+		if _, had := x.pods[id]; !had {
+			x.ids = append(x.ids, id)
+		}
+		x.pods[id] = pods
+		return waitFor("cluster add", x.server.VerifNodeAuthorizerSynced)
+	}
+	return errors.New("unknown event")
+}
+
+func allSynced(cs []multicluster.ComponentConstraint) bool {
+	for _, c := range cs {
+		if c != nil && !c.HasSynced() {
+			return false
+		}
+	}
+	return true
 }
 
 // honourPodFieldSelector makes the fake API server apply the `status.phase` field selector of a pod
@@ -782,6 +943,7 @@ func parseLeaf(pemText string) (*leafView, error) {
 // ---------------------------------------------------------------- system under test
 
 type issueSUT struct {
+	private bool // the current world is a private one (`nap`): it receives events and is closed afterwards
 	authn  *authnSUT
 	keys   *keyring
 	fix    *caFixtures
@@ -988,7 +1150,10 @@ func (s *issueSUT) apply(f []string) (out string) {
 	switch f[0] {
 	case "case":
 		s.caOK = false
-		s.cur = nil
+		if s.private {
+			s.cur.close()
+		}
+		s.cur, s.private = nil, false
 		return "ok"
 	case "ca":
 		if len(f) != 7 {
@@ -1016,7 +1181,19 @@ func (s *issueSUT) apply(f []string) (out string) {
 		s.caOK = true
 		s.maxTTL = max
 		return "ca-ok"
-	case "na":
+	case "pod", "cl":
+		if s.cur == nil || !s.private {
+			return "bad-op"
+		}
+		if err := s.cur.event(f); err != nil {
+			return "fixture-failed " + wire.Enc(err.Error())
+		}
+		return "ev-ok"
+	case "na", "nap":
+		if s.private {
+			s.cur.close()
+		}
+		s.private = f[0] == "nap"
 		w, err := s.worlds.get(f)
 		if err != nil {
 			return "fixture-failed " + wire.Enc(err.Error())
